@@ -68,6 +68,7 @@ func main() {
 }
 
 func runOne(wp **World, prop string, f ruleFunc, tier string, seed int64, repo, verif, evidence string, verbose bool, only string, noEvidence bool, tags, goarch string) (status int) {
+	var r *Report
 	defer func() {
 		if x := recover(); x != nil {
 			if u, ok := x.(undecided); ok {
@@ -76,6 +77,18 @@ func runOne(wp **World, prop string, f ruleFunc, tier string, seed int64, repo, 
 				fmt.Fprintf(os.Stderr, "CANNOT-DECIDE property=%s: internal error: %v\n%s\n", prop, x, debug.Stack())
 			}
 			status = 2
+			// violations found before the rule set gave up are still reported (never on an
+			// evidence file: the run is not a verdict)
+			if r != nil && r.hasViolations() {
+				func() {
+					defer func() { recover() }()
+					tmp := filepath.Join(os.TempDir(), fmt.Sprintf("twigcheck-ev-%d-%s-partial.json", os.Getpid(), prop))
+					defer os.Remove(tmp)
+					if r.finish(verif, tmp, false) == 1 {
+						status = 1
+					}
+				}()
+			}
 		}
 	}()
 	if *wp == nil {
@@ -83,7 +96,7 @@ func runOne(wp **World, prop string, f ruleFunc, tier string, seed int64, repo, 
 		curWorld = *wp
 	}
 	w := *wp
-	r := newReport(prop, tier, seed)
+	r = newReport(prop, tier, seed)
 	r.Counts["files"] = len(w.Files)
 	f(w, r)
 	if evidence == "" {
@@ -106,6 +119,17 @@ func runOne(wp **World, prop string, f ruleFunc, tier string, seed int64, repo, 
 		}
 	}
 	st := r.finish(verif, evidence, verbose)
+	if len(r.Undecided) > 0 {
+		for _, u := range r.Undecided {
+			fmt.Fprintf(os.Stderr, "CANNOT-DECIDE property=%s: %s\n", prop, u)
+		}
+		if st == 0 {
+			st = 2
+		}
+		if !noEvidence {
+			os.Remove(evidence) // an undecided run leaves no evidence of a pass
+		}
+	}
 	if tier == "thorough" {
 		if st2 := thorough(w, prop, repo, verif); st2 > st {
 			st = st2
